@@ -162,14 +162,17 @@ func (f *SubscriptionFieldFilter) SkipEvent(ctx *Context, data []byte) (bool, er
 				// Boolean: true -> JSON: "true"
 				// Number: 42 -> JSON: "42"
 				// Null: null -> JSON: "null"
+				// The stringified form is kept apart from expected: expected is compared with every value of
+				// the list, stringifying it in place would quote it once more for each further value.
+				stringified := expected
 				if expectedDataType == jsonparser.String {
-					expected, err = json.Marshal(string(expected))
+					stringified, err = json.Marshal(string(expected))
 					if err != nil {
 						return true, err
 					}
 				}
 
-				if bytes.Equal(expected, actualRawBytes) {
+				if bytes.Equal(stringified, actualRawBytes) {
 					return false, nil
 				}
 
